@@ -84,6 +84,22 @@ func (e *Exec) guard(t PtrTarget) *Term {
 }
 
 // mergeVal builds ite(g, a, b) for mergeable values.
+func samePtr(x, y PtrV) bool {
+	if len(x.tgs) != len(y.tgs) {
+		return false
+	}
+	for i := range x.tgs {
+		a, b := x.tgs[i], y.tgs[i]
+		if a.g != b.g || a.p != b.p || a.idx != b.idx {
+			return false
+		}
+		if (a.arr == nil) != (b.arr == nil) || (len(a.arr) > 0 && len(b.arr) > 0 && &a.arr[0] != &b.arr[0]) {
+			return false
+		}
+	}
+	return true
+}
+
 func (e *Exec) mergeVal(g *Term, a, b Value) (Value, bool) {
 	switch x := a.(type) {
 	case *Term:
@@ -106,6 +122,9 @@ func (e *Exec) mergeVal(g *Term, a, b Value) (Value, bool) {
 		y, ok := b.(PtrV)
 		if !ok {
 			return nil, false
+		}
+		if samePtr(x, y) {
+			return x, true
 		}
 		return e.mergePtr(g, x, y), true
 	case StructV:
@@ -164,6 +183,40 @@ func (e *Exec) mergeVal(g *Term, a, b Value) (Value, bool) {
 		return nil, false
 	case *Closure:
 		y, ok := b.(*Closure)
+		if ok && x == y {
+			return x, true
+		}
+		return nil, false
+	case TupleV:
+		y, ok := b.(TupleV)
+		if !ok || len(x) != len(y) {
+			return nil, false
+		}
+		r := make(TupleV, len(x))
+		for i := range x {
+			m, ok := e.mergeVal(g, x[i], y[i])
+			if !ok {
+				return nil, false
+			}
+			r[i] = m
+		}
+		return r, true
+	case ArrayV:
+		y, ok := b.(ArrayV)
+		if !ok || len(x) != len(y) {
+			return nil, false
+		}
+		r := make(ArrayV, len(x))
+		for i := range x {
+			m, ok := e.mergeVal(g, x[i], y[i])
+			if !ok {
+				return nil, false
+			}
+			r[i] = m
+		}
+		return r, true
+	case *ssa.Function:
+		y, ok := b.(*ssa.Function)
 		if ok && x == y {
 			return x, true
 		}
@@ -234,9 +287,9 @@ func (e *Exec) mergedLoad(p PtrV) (Value, bool) {
 	if len(live) == 0 {
 		return nil, false
 	}
-	if !nilG.IsFalse() {
+	if !nilG.IsFalse() && e.pureDepth == 0 {
 		if e.decide(nilG) {
-			panic(targetPanic{msg: "nil pointer dereference", pos: "merged load"})
+			panic(targetPanic{msg: "nil pointer dereference", pos: "merged load at " + e.where()})
 		}
 	}
 	acc := copyVal(*live[len(live)-1].p)
